@@ -453,6 +453,27 @@ def guards_oracle(ctx, o, first_only=False):
                 chk("named-set-reachable", ok, inp, obs, {"distinct": size ** L, "most": 1})
         if fails and first_only:
             return fails
+    # ---- custom alphabets and word lists are used AS GIVEN: entries that differ only by blanks, case or a line ending are different
+    #      symbols (each of the N^L values from one source outcome), or the constructor refuses the list — never a silent merge
+    for kind, items in (("words", ["red", "red\n", " red", "Red", "blue"]), ("words", ["a b", "a", "b"]), ("chars", "aA \t\n"), ("words", ["x\u00e9", "xe\u0301", "x"])):
+        for L in (1, 2):
+            inp = {"op": "custom-set-reachable", kind: items if isinstance(items, list) else [items], "length": L}
+            n_ = len(items)
+            counts = collections.Counter()
+            try:
+                for v in range(n_ ** L):
+                    r = CountingRng(v)
+                    # successive questions read successive base-n digits of v: one value of v = one outcome of the whole source
+                    r._next = lambda n, r=r: (lambda d: (setattr(r, "v", r.v // n), d)[1])(r.v % n)
+                    g = pwd.PhraseGenerator(words=items, length=L, rng=r, sep="\x00") if kind == "words" else pwd.WordGenerator(chars=items, length=L, rng=r)
+                    counts[g()] += 1
+                ok = len(counts) == n_ ** L and set(counts.values()) == {1} and g.symbol_count == n_
+                obs = {"distinct": len(counts), "most": counts.most_common(1)[0][1], "symbol_count": g.symbol_count}
+            except ValueError as e:
+                ok, obs = True, "refused: " + str(e)[:60]
+            except Exception as e:  # noqa: BLE001
+                ok, obs = False, type(e).__name__ + ": " + str(e)[:80]
+            chk("custom-set-reachable", ok, inp, obs, {"distinct": n_ ** L, "most": 1, "symbol_count": n_})
     for N in range(2, 95, 3 if not ctx.thorough else 1):
         chars = "".join(chr(33 + i) for i in range(N))
         for e in (1, 7, 40, 64, 128, 199):
